@@ -444,7 +444,11 @@ fn eval_inner(case: &Case, clock: &Clock, ex: &mut Exec, age: &mut u64) -> Verdi
                     4 => vec![st("NetStream.Play.Start")],
                     _ => vec![],
                 };
-                Concrete::Peer { rm: command("onStatus", 0.0, V::Null, args), msid: active_or(&model), ts: peer_ts, cut: *cut, chunk: None }
+                // servers number their own calls independently: now and then the command carries a
+                // number that happens to equal one of the client's pending transaction ids (it is not
+                // an answer and must leave that transaction alone)
+                let own_tid = if (kind / 6) % 2 == 1 { model.outstanding.keys().next().map(|t| *t as f64).unwrap_or(0.0) } else { 0.0 };
+                Concrete::Peer { rm: command("onStatus", own_tid, V::Null, args), msid: active_or(&model), ts: peer_ts, cut: *cut, chunk: None }
             }
             COp::Audio { active, ts, len } => Concrete::Peer { rm: RM::Audio(fill_bytes(*ts, *len as usize)), msid: if *active { active_or(&model) } else { other_stream(&model) }, ts: *ts, cut: *cut, chunk: None },
             COp::Video { active, ts, len } => Concrete::Peer { rm: RM::Video(fill_bytes(*ts, *len as usize)), msid: if *active { active_or(&model) } else { other_stream(&model) }, ts: *ts, cut: *cut, chunk: None },
@@ -467,8 +471,12 @@ fn eval_inner(case: &Case, clock: &Clock, ex: &mut Exec, age: &mut u64) -> Verdi
             COp::Ping { ts } => Concrete::Peer { rm: RM::UserControl(6, vec![*ts]), msid: 0, ts: peer_ts, cut: *cut, chunk: None },
             COp::Ack { v } => Concrete::Peer { rm: RM::Ack(*v), msid: 0, ts: peer_ts, cut: *cut, chunk: None },
             COp::WindowAck { v } => Concrete::Peer { rm: RM::WindowAck((*v).max(1)), msid: 0, ts: peer_ts, cut: *cut, chunk: None },
-            COp::PeerChunkSize(n) => Concrete::Peer { rm: RM::SetChunkSize(0), msid: 0, ts: peer_ts, cut: *cut, chunk: Some((*n).clamp(1, 0x7FFF_FFFF)) },
-            COp::UnknownCommand { k } => Concrete::Peer { rm: command(["onBWDone", "onFCPublish", "close"][*k as usize % 3], 0.0, V::Null, vec![num(8192.0)]), msid: 0, ts: peer_ts, cut: *cut, chunk: None },
+            // one time in four the server announces the very size the client is configured with
+            COp::PeerChunkSize(n) => Concrete::Peer { rm: RM::SetChunkSize(0), msid: 0, ts: peer_ts, cut: *cut, chunk: Some((if *n % 4 == 0 { case.chunk_size } else { *n }).clamp(1, 0x7FFF_FFFF)) },
+            COp::UnknownCommand { k } => {
+                let own_tid = if (k / 3) % 2 == 1 { model.outstanding.keys().next_back().map(|t| *t as f64).unwrap_or(0.0) } else { 0.0 };
+                Concrete::Peer { rm: command(["onBWDone", "onFCPublish", "close"][*k as usize % 3], own_tid, V::Null, vec![num(8192.0)]), msid: 0, ts: peer_ts, cut: *cut, chunk: None }
+            }
         };
         if matches!(op, COp::WindowAck { .. }) {
             window_set = true;
@@ -842,7 +850,7 @@ pub fn cop() -> BoxedStrategy<COp> {
         1 => Just(COp::SendPing),
         9 => (tid_ref(), prop_oneof![5 => (0u8..4).prop_map(Some), 1 => (250u8..=255).prop_map(Some), 1 => Just(None)]).prop_map(|(tid, stream)| COp::Result { tid, stream }),
         2 => tid_ref().prop_map(|tid| COp::Error { tid }),
-        6 => prop_oneof![4 => Just(0u8), 4 => Just(1u8), 1 => Just(2u8), 1 => 3u8..6].prop_map(|kind| COp::OnStatus { kind }),
+        6 => (prop_oneof![4 => Just(0u8), 4 => Just(1u8), 1 => Just(2u8), 1 => 3u8..6], prop_oneof![3 => Just(0u8), 1 => Just(6u8)]).prop_map(|(kind, own)| COp::OnStatus { kind: kind + own }),
         3 => (prop::bool::weighted(0.8), gen::edge_u32(), 0u16..300).prop_map(|(active, ts, len)| COp::Audio { active, ts, len }),
         3 => (prop::bool::weighted(0.8), gen::edge_u32(), 0u16..300).prop_map(|(active, ts, len)| COp::Video { active, ts, len }),
         2 => (prop::bool::weighted(0.8), meta()).prop_map(|(active, meta)| COp::OnMetaData { active, meta }),
